@@ -76,12 +76,12 @@ def varpc_n(n: Seq(Nat, "ndarray", min_len=1)) -> Real:
 def stdpc_n(n: Seq(Nat, "ndarray", min_len=1)) -> Real:
     requires(vsum(n) >= 4)
     raises(None)
-    ensures(implies(post("pyrepseq.stats.varpc_n", n) >= 0, result >= 0 and close(result * result, post("pyrepseq.stats.varpc_n", n))), name="post[sqrt of varpc_n]")
+    ensures(implies(post("pyrepseq.stats.varpc_n", n) > 0, result >= 0 and close(result * result, post("pyrepseq.stats.varpc_n", n))), name="post[sqrt of varpc_n]")
     canary(close(result, post("pyrepseq.stats.varpc_n", n)), name="no-sqrt")
 
 
 @contract("pyrepseq.stats.stdpc", props=["C06"], scope="samples4", opaque_on_tables=True)
 def stdpc(array: OneOf(Seq(Str, "list", min_len=4), Seq(Str, "ndarray", min_len=4), Seq(Int, "list", min_len=4))) -> Real:
     raises(None)
-    ensures(implies(post("pyrepseq.stats.varpc_n", ucounts(array)) >= 0,
+    ensures(implies(post("pyrepseq.stats.varpc_n", ucounts(array)) > 0,
                     result >= 0 and close(result * result, post("pyrepseq.stats.varpc_n", ucounts(array)))), name="post[stdpc_n of the multiplicities]")
